@@ -50,3 +50,18 @@ package fuzz
 //@   requires recv: m != nil
 //@   ensures ok: true
 //@   assigns everything
+
+// The frame reader proper: the stream and the payload unmarshalers are external here (results and heap unknown);
+// what is decided is that the function itself neither panics nor allocates from the announced length.
+//@ func (*Message).ReadFrom
+//@   props C14
+//@   requires recv: m != nil
+//@   ensures ok: true
+//@   assigns everything
+//@   opt alloc=8*0 + 4096
+
+//@ func (*Version).ReadFrom
+//@   props C14
+//@   requires recv: v != nil
+//@   ensures ok: true
+//@   assigns everything
